@@ -93,6 +93,27 @@ def translate_outcome(text):
     return ('ok',)
 
 
+class _Hang(Exception):
+    pass
+
+
+def bounded_outcome(text, limit=60, fn=None):
+    """translate_outcome (or fn) under an alarm: a call that does not come back within `limit` seconds is reported as ('hang', limit)"""
+    import signal
+
+    def on_alarm(signum, frame):
+        raise _Hang()
+    old = signal.signal(signal.SIGALRM, on_alarm)
+    signal.alarm(limit)
+    try:
+        return (fn or translate_outcome)(text)
+    except _Hang:
+        return ('hang', f'no result within {limit} s')
+    finally:
+        signal.alarm(0)
+        signal.signal(signal.SIGALRM, old)
+
+
 PROBE = r'''
 import sys, time
 sys.path.insert(0, %(verif)r)
@@ -138,10 +159,13 @@ def run(report, tier, seed):
     outcomes = {}
     for s, origin in sorted(seqs.items()):
         text = pc.canonical_text(list(s))
-        again, lexed = pc.replay_text(text)
-        if lexed != ['EqOperatorToken'] + list(s):
+        lx = bounded_outcome(text, fn=pc.replay_text)
+        if lx[0] == 'hang':
+            o = lx
+        elif lx[1] != ['EqOperatorToken'] + list(s):
             continue          # not spellable so that the lexer reproduces the class sequence
-        o = translate_outcome(text)
+        else:
+            o = bounded_outcome(text)
         outcomes[text] = o
         cname = 'translate:' + text
         if o[0] in ('ok', 'library'):
